@@ -171,6 +171,34 @@ def judge(ctx, spec, X, y, out, pend, inp):
             V(f"path made {upd} optimiser steps over {len(calls)} epochs, expected {len(calls)}*{nb}", "path:steps", len(calls) * nb, upd)
         if not (mi + T <= len(calls) <= mi * (1 + T + 1)):
             V(f"path ran {len(calls)} epochs for max_iter={mi} and {T} path steps", "path:epochs")
+        # validation sweeps (predict_proba on consecutive chunks of X): one after the initial fit, one at the start of every
+        # path step, one after EVERY training epoch.  Each sweep is therefore preceded by 0 optimiser steps (start of a path step)
+        # or by one full epoch of ceil(n/bs) steps, and  #sweeps = 1 + #path steps started + #epochs trained  with
+        # #epochs trained = #optimiser steps of the path / ceil(n/bs)  and #path steps started = T (or T+1 after a NaN abort)
+        runs, since, in_run, n_valx = [], 0, False, 0      # runs = maximal blocks of validation calls (sweeps back to back merge)
+        for k, _ in log:
+            if k == "val_x":
+                n_valx += 1
+                if not in_run:
+                    runs.append(since)
+                    since, in_run = 0, True
+            elif k != "val_aff":        # the GEMINI calls of a sweep sit between its predict_proba calls
+                in_run = False
+                if k == "update":
+                    since += 1
+        fit_updates = runs[0] if runs else upd
+        odd = [(i, u) for i, u in enumerate(runs[1:], start=1) if u != nb]
+        if odd:
+            V(f"between two validations path() made {odd[0][1]} optimiser steps instead of one epoch of {nb} "
+              f"(block #{odd[0][0]})", "path:steps-per-epoch", nb, odd[0][1])
+        elif runs and nb and n_valx % nb == 0:
+            n_sweeps = n_valx // nb
+            trained = (upd - fit_updates) // nb
+            started = n_sweeps - 1 - trained
+            if started not in (T, T + 1):
+                V(f"path(): {n_sweeps} validation sweeps and {trained} trained epochs leave {started} sweeps for the start of path "
+                  f"steps, but {T} steps were recorded: some epochs were validated without being trained", "path:epochs-without-training",
+                  T, started)
         judge_val(ctx, spec, X, y, log, pend, inp, V)
 
     # ---- Lean requests
